@@ -1,6 +1,8 @@
 package optimizer
 
 import (
+	"reflect"
+
 	. "github.com/antonmedv/expr/ast"
 )
 
@@ -11,6 +13,17 @@ func (*inRange) Exit(node *Node) {
 	switch n := (*node).(type) {
 	case *BinaryNode:
 		if n.Operator == "in" || n.Operator == "not in" {
+			// The rewrite evaluates the left operand twice and compares it as a
+			// number: it is only valid for a plain variable (or the element of a
+			// closure) which is not known to be of another type than int.
+			switch n.Left.(type) {
+			case *IdentifierNode, *PointerNode:
+			default:
+				return
+			}
+			if t := n.Left.Type(); t != nil && t.Kind() != reflect.Int {
+				return
+			}
 			if rng, ok := n.Right.(*BinaryNode); ok && rng.Operator == ".." {
 				if from, ok := rng.Left.(*IntegerNode); ok {
 					if to, ok := rng.Right.(*IntegerNode); ok {
